@@ -13,14 +13,27 @@ from harness import gallina as G
 from harness.gallina import Tag
 
 ID = "C16"
-COQ_DIRS = ["C16"]
+COQ_DIRS = ["C16"]        # Gen/C16_src.v, Gen/C16_equiv.v are pulled in as dependencies of Property.v
 PROPERTY_FILE = "C16/Property.v"
 RUN_IMPORTS = "From TV Require Import C16.Model C16.Spec C16.Run."
 RUN_FN = "run_case"
 CHECK_FN = "check_case"
 INPUT_TYPE = "(cfg * list event)"
 
-MAX_MSG = 64
+MAX_MSG = 200
+
+
+def pre_build():
+    """regenerate coq/Gen/C16_src.v from the checkout under test (fail-closed translator)"""
+    import importlib
+    import os
+    import sys
+    from harness.framework import REPO, COQ
+    sys.path.insert(0, os.path.join(os.path.dirname(COQ), "translators"))
+    import c16_src
+    importlib.reload(c16_src)
+    c16_src.emit(REPO, os.path.join(COQ, "Gen", "C16_src.v"))
+
 BAD_REASON = b"\xff\xfe"
 
 # ----------------------------------------------------------------------------
@@ -55,8 +68,13 @@ def frame_bytes(fd, masked):
         return enc_frame(10, b"", masked)
     if k == "bad":
         return enc_frame(1, b"s", masked, rsv=0x10)
-    if k == "big":
-        return enc_frame(1, b"s" * 100, masked)
+    if k == "big":       # announced length 300 > MAX_MSG (16-bit length form)
+        body = b"s" * 300
+        h = bytes([0x81, 126 | (0x80 if masked else 0)]) + struct.pack(">H", 300)
+        if masked:
+            m = b"\x11\x22\x33\x44"
+            body = m + bytes(b ^ m[i % 4] for i, b in enumerate(body))
+        return h + body
     raise ValueError(fd)
 
 
@@ -174,6 +192,10 @@ def _drive(case):
                         return f
                     if m == "r":
                         raise RuntimeError("application error")
+                    if m == "c":
+                        async def boom():
+                            raise RuntimeError("application error in a coroutine")
+                        return boom()
 
                 def on_close(self):
                     items.append([Tag("OnClose"), self.close_code, self.close_reason])
@@ -197,6 +219,7 @@ def _drive(case):
             p = h.ws_connection
             do_close = h.close
             do_write = h.write_message
+            do_ping = h.ping
             has_conn = lambda: h.ws_connection is not None
         else:
             class FakeTCP:
@@ -217,9 +240,28 @@ def _drive(case):
                 if m == "r":
                     raise RuntimeError("application error")
 
+            class Conn(W.WebSocketClientConnection):
+                # the delegate method the protocol calls; asynchronous kinds are handled here,
+                # everything else goes the documented on_message_callback way
+                def on_message(self, m):
+                    if m == "a":
+                        items.append(Tag("OnMessage"))
+                        f = asyncio.Future()
+                        gates.append(f)
+                        return f
+                    if m == "c":
+                        items.append(Tag("OnMessage"))
+
+                        async def boom():
+                            raise RuntimeError("application error in a coroutine")
+                        return boom()
+                    return super().on_message(m)
+
             conn_box = []
             saved = W.TCPClient
+            saved_cls = W.WebSocketClientConnection
             W.TCPClient = FakeTCP
+            W.WebSocketClientConnection = Conn
             try:
                 kw = {"max_message_size": MAX_MSG}
                 if ping is not None:
@@ -229,6 +271,7 @@ def _drive(case):
                 await _quiesce(loop)
             finally:
                 W.TCPClient = saved
+                W.WebSocketClientConnection = saved_cls
             req = bytes(s.sent)
             key = [l.split(b": ", 1)[1] for l in req.split(b"\r\n") if l.lower().startswith(b"sec-websocket-key")][0]
             acc = W.WebSocketProtocol13.compute_accept_value(key)
@@ -241,6 +284,7 @@ def _drive(case):
             p = conn.protocol
             do_close = conn.close
             do_write = conn.write_message
+            do_ping = conn.ping
             has_conn = lambda: conn.protocol is not None
         s.take_sent()
         s.parse = True
@@ -267,7 +311,10 @@ def _drive(case):
         for ev in case["evs"]:
             k = ev[0]
             if k == "close":
-                do_close(ev[1], ev[2])
+                try:
+                    do_close(ev[1], ev[2])
+                except (struct.error, ValueError):
+                    items.append(Tag("CloseErr"))
             elif k == "recv":
                 netq.append(frame_bytes(ev[1], masked=server))
             elif k == "eof":
@@ -285,6 +332,15 @@ def _drive(case):
             elif k == "done":
                 if gates:
                     gates.pop(0).set_result(None)
+            elif k == "fail":
+                if gates:
+                    gates.pop(0).set_exception(RuntimeError("application error after an await"))
+            elif k == "aping":
+                try:
+                    do_ping(b"")
+                    items.append(Tag("PingOk"))
+                except W.WebSocketClosedError:
+                    items.append(Tag("PingErr"))
             elif k == "opendone":
                 if open_gate:
                     open_gate.pop(0).set_result(None)
@@ -346,7 +402,7 @@ def g_frame(fd):
     if k == "closebad":
         return "(FClose (CPBadUtf8 %s))" % G.gn(fd[1])
     if k == "msg":
-        return "(FMsg %s)" % {"s": "MSync", "a": "MAsync", "r": "MRaise"}[fd[1]]
+        return "(FMsg %s)" % {"s": "MSync", "a": "MAsync", "r": "MRaise", "c": "MCoRaise"}[fd[1]]
     return {"ping": "FPing", "pong": "FPong", "bad": "FBad", "big": "FBig"}[k]
 
 
@@ -356,8 +412,8 @@ def g_event(ev):
         return "(ELocalClose %s %s)" % (g_on(ev[1]), "None" if ev[2] is None else "(Some %s)" % g_text(ev[2]))
     if k == "recv":
         return "(ERecv %s)" % g_frame(ev[1])
-    return {"eof": "EPeerEof", "reset": "EPeerReset", "tick": "ETick", "done": "EMsgDone", "opendone": "EOpenDone",
-            "write": "EWrite"}[k]
+    return {"eof": "EPeerEof", "reset": "EPeerReset", "tick": "ETick", "done": "EMsgDone", "fail": "EMsgFail",
+            "opendone": "EOpenDone", "write": "EWrite", "aping": "EAppPing"}[k]
 
 
 def coq_input(case):
@@ -382,6 +438,14 @@ def _code_reason(hobs):
     return None, None
 
 
+def close_args_ok(code, reason):
+    if code is None and reason is not None:
+        code = 1000
+    if code is None:
+        return True
+    return code < 65536 and 2 + len((reason or "").encode("utf-8")) <= 125
+
+
 def py_check(case, obs):
     if not isinstance(obs, list) or len(obs) != len(case["evs"]):
         return False
@@ -396,11 +460,14 @@ def py_check(case, obs):
         closing = sent or hc is not None or sc or local
         sent0 = sent
         echo = None
-        wok = werr = data = 0
+        wok = werr = data = pok = perr = cerr = 0
         for it in its:
             if isinstance(it, Tag):
                 wok += it == "WriteOk"
                 werr += it == "WriteErr"
+                pok += it == "PingOk"
+                perr += it == "PingErr"
+                cerr += it == "CloseErr"
                 continue
             t = str(it[0])
             if t == "Sent":
@@ -415,6 +482,9 @@ def py_check(case, obs):
                     sent = True
                 elif u == "Data":
                     data += 1
+                    if sent:
+                        return False
+                elif u == "Ping":
                     if sent:
                         return False
                 elif u == "Odd":
@@ -443,11 +513,16 @@ def py_check(case, obs):
         if sc and not nsc:
             return False
         if ev[0] == "write":
-            if (wok, werr, data) != ((0, 1, 0) if closing else (1, 0, 1)):
-                return False
-        elif (wok, werr, data) != (0, 0, 0):
+            want = (0, 1, 0, 0, 0, 0) if closing else (1, 0, 1, 0, 0, 0)
+        elif ev[0] == "aping":
+            want = (0, 0, 0, 0, 1, 0) if closing else (0, 0, 0, 1, 0, 0)
+        elif ev[0] == "close" and not closing and not close_args_ok(ev[1], ev[2]):
+            want = (0, 0, 0, 0, 0, 1)
+        else:
+            want = (0, 0, 0, 0, 0, 0)
+        if (wok, werr, data, pok, perr, cerr) != want:
             return False
-        local = local or ev[0] == "close"
+        local = local or (ev[0] == "close" and close_args_ok(ev[1], ev[2]))
         sc = nsc
     return True
 
@@ -482,6 +557,16 @@ def corpus_cases():
         # fixed c9a9e8d: client write_message after its own ping-timeout close put a data frame after the Close
         out.append(mk(role, [3, 2], [["tick"], ["tick"], ["write"], ["close", None, None], ["write"], ["tick"]]))
         out.append(mk(role, [3, 2], [["tick"], R("pong"), ["tick"], ["tick"], ["tick"], R("pong"), ["tick"]]))
+    for role in ("server", "client"):
+        # fixed b8aaa28: an asynchronous on_message that raises (after an await / before the first one)
+        out.append(mk(role, None, [R("msg", "a"), ["fail"], ["write"], CLOSE_1001, ["eof"], ["close", None, None], ["tick"]]))
+        out.append(mk(role, None, [R("msg", "c"), ["write"], ["tick"]]))
+        # close() whose frame cannot be built raises and changes nothing; boundary 123 / 124 bytes, code 65535 / 65536
+        out.append(mk(role, None, [["close", 1000, "x" * 124], ["write"], ["aping"], ["close", 65536, None],
+                                   ["close", 65535, "x" * 123], ["close", 1000, "x" * 124], ["aping"]]))
+        out.append(mk(role, None, [["close", None, "\u00e9" * 62], ["close", None, "\u00e9" * 61], ["write"]]))
+        # the peer's long (123 byte) reason is reported but not echoed (seeded C16_2)
+        out.append(mk(role, None, [R("closecode", 1000, "y" * 123)]))
     # torn down while a coroutine open() is pending (seeded C16_1): close() in open(), closing timeout, open() returns
     out.append(mk("server", None, [["close", 1001, "bye"], ["write"], ["tick"], ["opendone"], ["write"]], aopen=True))
     out.append(mk("server", [3, 2], [["tick"], ["tick"], ["tick"], ["opendone"]], aopen=True))
@@ -498,7 +583,7 @@ def rand_frame(rng):
                            ["closecode", c, rng.choice(["bye", "x", "été", "€", "\U0001F600 ok"])],
                            ["closecode", c, "bye"], ["closebad", c]])
     if r < 0.60:
-        return ["msg", rng.choice("ssaar")]
+        return ["msg", rng.choice("ssaaarc")]
     if r < 0.72:
         return ["ping"]
     if r < 0.86:
@@ -510,7 +595,9 @@ def rand_event(rng):
     r = rng.random()
     if r < 0.16:
         code = rng.choice([None, None, 1000, 1001, 4000, 0, 65535])
-        reason = rng.choice([None, None, "", "x", "going away", "über", "€\U0001F600"])
+        reason = rng.choice([None, None, "", "x", "going away", "über", "€\U0001F600", "x" * 123, "x" * 124, "€" * 41, "€" * 42])
+        if rng.random() < 0.1:
+            code = rng.choice([65536, 70000])
         return ["close", code, reason]
     if r < 0.46:
         return ["recv", rand_frame(rng)]
@@ -520,17 +607,24 @@ def rand_event(rng):
         return ["reset"]
     if r < 0.76:
         return ["tick"]
-    if r < 0.86:
+    if r < 0.83:
         return ["done"]
+    if r < 0.86:
+        return ["fail"]
     if r < 0.90:
         return ["opendone"]
+    if r < 0.94:
+        return ["aping"]
     return ["write"]
 
 
 SMALL = [["close", 1000, "x"], CLOSE_1001, R("msg", "a"), ["eof"], ["reset"], ["tick"], ["done"], ["write"], R("pong")]
 TINY = [["close", None, None], R("close"), R("msg", "a"), ["eof"], ["tick"], ["done"], ["write"]]
 WIDE = SMALL + [R("close"), R("closebad", 1002), R("msg", "s"), R("msg", "r"), R("ping"), R("bad"), R("big"),
-                ["close", None, "r"], R("close1", 3), R("closecode", 1000, "")]
+                ["close", None, "r"], R("close1", 3), R("closecode", 1000, ""),
+                R("msg", "c"), ["fail"], ["aping"], ["close", 1000, "x" * 124], ["close", 65536, None]]
+API = [["close", 1000, "x"], ["close", 1000, "x" * 124], ["aping"], ["write"], CLOSE_1001, R("msg", "a"), ["fail"], ["done"],
+       ["tick"], ["reset"]]
 
 
 SMALL_O = SMALL + [["opendone"]]
@@ -554,6 +648,9 @@ def gen_cases(rng, tier):
             for ping in ([3, 2], [3, None]):
                 for seq in itertools.product(P_ALPHA[:5], repeat=3):
                     out.append(mk(role, ping, [["tick"]] + list(seq)))
+        # application calls (ping(), close() with unencodable arguments) and failing asynchronous on_message
+        for k, seq in enumerate(itertools.product(API, repeat=3)):
+            out.append(mk("server" if k % 2 else "client", [3, 2] if k % 3 == 0 else None, seq))
         # a coroutine open() pending from the start: every triple, with open() returning at any point or never
         for seq in itertools.product(SMALL_O, repeat=3):
             out.append(mk("server", [3, 2], seq, aopen=True))
@@ -571,6 +668,9 @@ def gen_cases(rng, tier):
                 out.append(mk(role, [3, 2] if role == "client" else None, seq, coq=(k % 6 == 0)))
         for k, seq in enumerate(itertools.product(TINY, repeat=6)):
             out.append(mk("server", [3, 2], seq, coq=(k % 20 == 0)))
+        for role in ("server", "client"):
+            for k, seq in enumerate(itertools.product(API, repeat=4)):
+                out.append(mk(role, [3, 2] if k % 3 == 0 else None, seq, coq=(k % 4 == 0)))
         for k, seq in enumerate(itertools.product(SMALL_O, repeat=4)):
             out.append(mk("server", [3, 2], seq, coq=(k % 4 == 0), aopen=True))
         for k, seq in enumerate(itertools.product(TINY_O, repeat=5)):
@@ -649,16 +749,15 @@ LEVEL_TEXT = ("Machine-checked (Coq) proofs over ALL event lists (local close, p
               "step-by-step differential check under a virtual clock.")
 LEVEL_NOTE = ("Trusted: Coq kernel/vm_compute; the harness driver (fake stream, lazy delivery discipline, virtual clock); "
               "the hand-written model is tied to the code only by the correspondence run.")
-TECHNIQUE = "Coq proof (inductive invariant + online monitor soundness) + differential correspondence via vm_compute"
+TECHNIQUE = "Coq proof (inductive invariant + online monitor soundness) + ast translator for the pure decisions + differential correspondence via vm_compute"
 TRUSTED_BASE = [
+    "translators/c16_src.py (strict ast reader of is_closing, the WebSocketClosedError guards, ping_interval/ping_timeout/ping_sleep_time, the ping-timeout test, close()'s default code; fails closed)",
     "IOStream is abstracted: bytes are delivered to the stream one whole frame at a time and only while the protocol has a read pending; a reset is delivered as an IOLoop.ERROR event",
     "the UTF-8 codec is not modelled: Close reasons are code points encoded/decoded by Python; 'invalid UTF-8' is the fixed byte string FF FE",
     "frame parsing/masking is C14's subject: only complete single-frame messages, pings, pongs, closes, one reserved-bit violation and one oversize frame are used",
 ]
 ASSUMPTIONS = [
-    "close() arguments are encodable: code < 65536 and 2 + len(utf8(reason)) <= 125 (otherwise close() raises to the caller before changing state)",
-    "an asynchronous on_message Future resolves successfully (an on_message coroutine that raises is an application error outside the property)",
-    "client role: callback style (on_message_callback); writes to the transport never fail short of a closed stream",
+    "client role: on_message_callback style, with a WebSocketClientConnection subclass overriding the delegate method on_message for the asynchronous kinds; writes to the transport never fail short of a closed stream; close reasons contain no lone surrogates",
 ]
 RULE_NOTE = ("thorough: all 9^4 lists over SMALL x 2 roles x 2 ping configs, all 7^5 (both roles) and 7^6 (server) lists over TINY, "
              "all 6^4 ping scenarios x 4 ping configs x 2 roles, all 19^2 pairs over WIDE x 5 ping configs x 2 roles, 4000 random lists")
